@@ -1,20 +1,31 @@
-(* C06: property theorems.  Statements only; every proof is `exact` of a lemma in Proofs/. *)
+(* C06 -- Mixed schedules perform the minimal possible number of forward steps
+   Property theorems only: each proof is one application of a lemma proved in Proofs/, followed by Print Assumptions. *)
 From Coq Require Import ZArith List Bool.
-From CS Require MixDP MixInv.
+From CS Require MixInv MixDP.
+From CS Require Import Actions NAdvance Multistage Exec Sched RunFacts Projections BasicInv MultistageRun TLBridge.
 Import ListNotations.
 Open Scope Z_scope.
 
-(* Mixed: forward steps executed = planner cost C N S, storage empty at the end *)
-Module M_C06_mixed_total.
+(* PARTIAL: on the Mixed generator over an abstract planner: forward steps executed = planner cost C N S, storage empty at the end; bridge to the extracted model not proved yet; optimality over all schedules not proved *)
+Module M_C06_mixed_total_partial.
 Import MixInv.
-Theorem C06_mixed_total :
+Theorem C06_mixed_total_partial :
   forall (plan : Z -> Z -> kind * Z) (C : Z -> Z -> Z) (N S_ : Z) (s : st) (x : xst),
          Inv plan C N S_ s x -> pcv s = PDone -> done x = C N S_ /\ store x = [].
 Proof. exact (@MixInv.done_total). Qed.
-Print Assumptions C06_mixed_total.
-End M_C06_mixed_total.
+Print Assumptions C06_mixed_total_partial.
+End M_C06_mixed_total_partial.
 
-(* planner facts *)
+(*  *)
+Module M_C06_plan_1.
+Import MixDP.
+Theorem C06_plan_1 :
+  forall k : Z, 0 <= k -> plan 1 k = (KFR, 1) /\ C 1 k = 1.
+Proof. exact (@MixDP.plan_1). Qed.
+Print Assumptions C06_plan_1.
+End M_C06_plan_1.
+
+(* facts of the concrete planner model *)
 Module M_C06_plan_ge2.
 Import MixDP.
 Theorem C06_plan_ge2 :
@@ -27,7 +38,16 @@ Proof. exact (@MixDP.plan_ge2). Qed.
 Print Assumptions C06_plan_ge2.
 End M_C06_plan_ge2.
 
-(* cost recurrence, ICS *)
+(*  *)
+Module M_C06_plan_2.
+Import MixDP.
+Theorem C06_plan_2 :
+  forall k : Z, 1 <= k -> fst (plan 2 k) = KAdj.
+Proof. exact (@MixDP.plan_2). Qed.
+Print Assumptions C06_plan_2.
+End M_C06_plan_2.
+
+(* cost recurrence, restart checkpoint *)
 Module M_C06_C_ics.
 Import MixDP.
 Theorem C06_C_ics :
@@ -40,7 +60,7 @@ Proof. exact (@MixDP.C_ics). Qed.
 Print Assumptions C06_C_ics.
 End M_C06_C_ics.
 
-(* cost recurrence, ADJ *)
+(* cost recurrence, adjoint-dependency checkpoint *)
 Module M_C06_C_adj.
 Import MixDP.
 Theorem C06_C_adj :
